@@ -53,7 +53,7 @@ func c05Sources(env *core.Env) []string {
 		"0." + strings.Repeat("0", 69) + "1", "(-0." + strings.Repeat("0", 69) + "1)", "(-0." + strings.Repeat("0", 69) + "2)", "(-2)", "(-1.5)", "1" + strings.Repeat("0", 70) + ".0", "(-1" + strings.Repeat("0", 70) + ".0)", "(-1" + strings.Repeat("0", 70) + ".5)",
 		"''", "'a'", "'A'", "'b'", "'ab'", "'é'", "'z'", "'€'", "'😀'", "'1'", "'a '",
 		"true", "false",
-		"@2020", "@2021", "@2020-01", "@2020-02", "@2020-01-01", "@2020-01-31", "@2019-12-31", "@2020-02-29",
+		"@2020", "@2021", "@2020-01", "@2020-02", "@2020-01-01", "@2020-01-31", "@2019-12-31", "@2020-02-29", "@2020-03", "@2019-12", "@2019", "@2020-03-01", "@2020-02-28",
 		"@2020T", "@2020-01T", "@2020-01-01T", "@2020-01-01T10", "@2020-01-01T10:30", "@2020-01-01T10:30:00", "@2020-01-01T10:30:00.000", "@2020-01-01T10:30:00.500", "@2020-01-01T11",
 		"@2020-01-01T10:30:00Z", "@2020-01-01T10:30:00+05:30", "@2020-01-01T16:00:00+05:30", "@2020-01-01T10:30:00-11:00", "@2020-01-01T10:30:00.000Z", "@2020-01-01T10:30:00.001Z", "@2020-01-01T10Z", "@2020-01-01T10:30Z", "@2020-01-01T10:30+05:30", "@2020-01-02T00:00:00+14:00", "@2019-12-31T23:59:59Z",
 		// same fractional-hour offset at different precisions, crossing an hour/day boundary once shifted to UTC
@@ -164,7 +164,7 @@ func fhirCarrier(m model.CVal, variant int) (any, bool) {
 		// variant 1: the same civil date held in a non-UTC zone (a date has no offset; jsonformat keeps its default zone)
 		loc, tz := time.UTC, "UTC"
 		if variant%2 == 1 {
-			tz = []string{"+05:30", "-11:00"}[(m.T.Y+m.T.Mo+m.T.D)%2]
+			tz = []string{"+05:30", "-11:00", "-03:30", "-00:30"}[(m.T.Y+m.T.Mo+m.T.D)%4]
 			loc = gen.TZLoc(tz)
 		}
 		t := time.Date(m.T.Y, time.Month(m.T.Mo), m.T.D, 0, 0, 0, 0, loc)
@@ -175,7 +175,7 @@ func fhirCarrier(m model.CVal, variant int) (any, bool) {
 		case m.T.Comps <= 3:
 			loc, tz := time.UTC, "UTC"
 			if variant%2 == 1 {
-				tz = []string{"+05:30", "-11:00"}[(m.T.Y+m.T.Mo+m.T.D)%2]
+				tz = []string{"+05:30", "-11:00", "-03:30", "-00:30"}[(m.T.Y+m.T.Mo+m.T.D)%4]
 				loc = gen.TZLoc(tz)
 			}
 			t := time.Date(m.T.Y, time.Month(m.T.Mo), m.T.D, 0, 0, 0, 0, loc)
